@@ -352,6 +352,16 @@ def write_bytes(it, st, fn, args, dest, target):
     it.ret_blob(st, dest, target, [])
 
 
+def intr_copy(it, st, fn, args, dest, target):
+    """intrinsics::copy / copy_nonoverlapping (src, dst, count): memmove semantics (everything is read first)"""
+    src = _scalar(it, st, args[0], 8)
+    dst = _scalar(it, st, args[1], 8)
+    cnt = it.concretize(st, _scalar(it, st, args[2], 8))
+    n = cnt * it.ptr_elem_size(args[0][1])
+    it.memcpy(st, dst, src, n)
+    it.ret_blob(st, dest, target, [])
+
+
 def compare_bytes(it, st, fn, args, dest, target):
     a = _scalar(it, st, args[0], 8)
     b = _scalar(it, st, args[1], 8)
@@ -642,6 +652,9 @@ def register(it):
     i["arith_offset"] = arith_offset
     i["write_bytes"] = write_bytes
     i["compare_bytes"] = compare_bytes
+    i["copy"] = intr_copy
+    i["copy_nonoverlapping"] = intr_copy
+    i["volatile_copy_memory"] = intr_copy
     i["black_box"] = identity
     i["likely"] = identity
     i["unlikely"] = identity
